@@ -313,6 +313,13 @@ func spec_walk(l *LALR1, q int, r int, k int) int { panic("spec") }
 //@ axiom WALKS: forall l *LALR1, q, r, k int :: 0 <= k && k < len(l.G.ProductoinRules[r].RighPart) ==>
 //@     spec_walk(l, q, r, k+1) == ite(spec_walk(l, q, r, k) < 0, -1, spec_step(l, spec_walk(l, q, r, k), int(l.G.ProductoinRules[r].RighPart[k].ID)))
 
+// once a walk has failed it stays failed
+//@ lemma WALKNEG(l *LALR1, q int, r int)
+//@ props C03 C02
+//@ induction m
+//@ use WALKS
+//@ ensures forall k, m int :: 0 <= m && 0 <= k && k <= m && m <= len(l.G.ProductoinRules[r].RighPart) && spec_walk(l, q, r, k) < 0 ==> spec_walk(l, q, r, m) < 0
+
 //@ def wfTrans(l *LALR1) = l != nil && l.G != nil &&
 //@     (forall i int :: 0 <= i && i < len(l.G.Symbols) ==> l.G.Symbols[i] != nil) &&
 //@     (forall i int :: 0 <= i && i < len(l.G.ProductoinRules) ==> l.G.ProductoinRules[i] != nil && l.G.ProductoinRules[i].LeftPart != nil &&
@@ -329,6 +336,9 @@ func spec_walk(l *LALR1, q int, r int, k int) int { panic("spec") }
 //@ results res
 //@ requires wfTrans(lalr)
 //@ ensures forall k int :: 0 <= k && k < len(res) ==> 0 <= res[k].Index && res[k].Index < len(lalr.trans) && res[k] == lalr.trans[res[k].Index] && res[k].sym_or_rule&CheckMask != 0
+// ... and every reduce entry of the transition list is returned
+//@ ensures [C03,C02] forall i int :: 0 <= i && i < len(lalr.trans) && lalr.trans[i].sym_or_rule&CheckMask != 0 ==> (exists k int :: 0 <= k && k < len(res) && res[k].Index == i)
+//@ loop 0: invariant forall i int :: 0 <= i && i < idx0 && lalr.trans[i].sym_or_rule&CheckMask != 0 ==> (exists k int :: 0 <= k && k < len(res) && res[k].Index == i)
 //@ modifies nothing
 //@ loop 0: invariant forall k int :: 0 <= k && k < len(res) ==> 0 <= res[k].Index && res[k].Index < len(lalr.trans) && res[k] == lalr.trans[res[k].Index] && res[k].sym_or_rule&CheckMask != 0
 
@@ -339,10 +349,20 @@ func spec_walk(l *LALR1, q int, r int, k int) int { panic("spec") }
 //@ requires wfTrans(lalr)
 //@ requires forall i, k int :: 0 <= i && i < len(lalr.G.ProductoinRules) && 0 <= k && k < len(lalr.G.ProductoinRules[i].RighPart) ==> lalr.G.ProductoinRules[i].RighPart[k].ID < 4294967296
 //@ ensures [C03,C02] forall n int :: 0 <= n && n < len(res) ==> lookbackOK(lalr, res[n].x, res[n].y)
+// completeness: every reduction (q, A -> w) looks back to every nonterminal transition (p, A) of DRSet with p --w--> q
+//@ ensures [C03,C02] forall x, y int :: lbCand(lalr, x, y) ==> inLb(res, x, y)
+//@ loop 0: invariant forall j, y int :: 0 <= j && j < idx0 && lbCand(lalr, rng0[j].Index, y) ==> inLb(res, rng0[j].Index, y)
+//@ loop 1: invariant forall j, y int :: 0 <= j && j < idx0 && lbCand(lalr, rng0[j].Index, y) ==> inLb(res, rng0[j].Index, y)
+//@ loop 1: invariant forall y int :: seen(y) && lbCand(lalr, tr.Index, y) ==> inLb(res, tr.Index, y)
 //@ modifies nothing
 //@ loop 0: invariant forall n int :: 0 <= n && n < len(res) ==> lookbackOK(lalr, res[n].x, res[n].y)
 //@ loop 1: invariant forall n int :: 0 <= n && n < len(res) ==> lookbackOK(lalr, res[n].x, res[n].y)
 //@ loop 1: order_assumed the relation list is used as a set of pairs by Digraph
+//@ def ruleOf(l *LALR1, x int) = int(l.trans[x].sym_or_rule&Mask)
+//@ def lbCand(l *LALR1, x int, y int) = 0 <= x && x < len(l.trans) && l.trans[x].sym_or_rule&CheckMask != 0 && has(l.DRSet, y) &&
+//@     l.trans[y].sym_or_rule == l.G.ProductoinRules[ruleOf(l, x)].LeftPart.ID &&
+//@     spec_walk(l, l.trans[y].q, ruleOf(l, x), len(l.G.ProductoinRules[ruleOf(l, x)].RighPart)) == l.trans[x].q
+//@ def inLb(res []Relation, x int, y int) = exists n int :: 0 <= n && n < len(res) && res[n].x == x && res[n].y == y
 //@ def lookbackOK(l *LALR1, x int, y int) = 0 <= x && x < len(l.trans) && 0 <= y && y < len(l.trans) &&
 //@     l.trans[x].sym_or_rule&CheckMask != 0 && l.trans[y].sym_or_rule&CheckMask == 0 &&
 //@     l.trans[y].sym_or_rule == l.G.ProductoinRules[int(l.trans[x].sym_or_rule&Mask)].LeftPart.ID &&
@@ -369,10 +389,11 @@ func spec_walk(l *LALR1, q int, r int, k int) int { panic("spec") }
 //@ func (*LALR1).walk
 //@ props C03 C02
 //@ results end, ok
-//@ use STEP, WALK0, WALKS
+//@ use STEP, STEPNONE, WALK0, WALKS, WALKNEG(lalr, q, ruleIndex)
 //@ requires wfTrans(lalr) && 0 <= ruleIndex && ruleIndex < len(lalr.G.ProductoinRules) && 0 <= n && n <= len(lalr.G.ProductoinRules[ruleIndex].RighPart) && 0 <= q
 //@ requires forall k int :: 0 <= k && k < len(lalr.G.ProductoinRules[ruleIndex].RighPart) ==> lalr.G.ProductoinRules[ruleIndex].RighPart[k].ID < 4294967296
 //@ ensures [C03,C02] ok ==> end == spec_walk(lalr, old(q), ruleIndex, n) && 0 <= end
+//@ ensures [C03,C02] !ok ==> spec_walk(lalr, old(q), ruleIndex, n) < 0
 //@ modifies nothing
 //@ loop 0: invariant 0 <= k && k <= n && q == spec_walk(lalr, old(q), ruleIndex, k) && 0 <= q && rhs == lalr.G.ProductoinRules[ruleIndex].RighPart
 
@@ -385,9 +406,27 @@ func spec_walk(l *LALR1, q int, r int, k int) int { panic("spec") }
 //@         (forall k int :: d < k && k < len(l.G.ProductoinRules[ri].RighPart) ==> l.G.ProductoinRules[ri].RighPart[k].IsEpsilonClosure) &&
 //@         spec_walk(l, l.trans[y].q, ri, d) == l.trans[x].q)
 
+// ... and every such pair is produced (completeness): whenever B -> beta A gamma with gamma nullable, p' --beta--> p
+// and p' has a transition on B, the pair ((p, A), (p', B)) is in the result
+//@ def incCand(l *LALR1, tr int, ri int, d int, q int) = 0 <= ri && ri < len(l.G.ProductoinRules) && 0 <= d && d < len(l.G.ProductoinRules[ri].RighPart) &&
+//@     l.G.ProductoinRules[ri].RighPart[d] == l.G.Symbols[l.trans[tr].sym_or_rule] &&
+//@     (forall k int :: d < k && k < len(l.G.ProductoinRules[ri].RighPart) ==> l.G.ProductoinRules[ri].RighPart[k].IsEpsilonClosure) &&
+//@     0 <= q && q < len(l.G.LR0.LR0Closure) && spec_walk(l, q, ri, d) == l.trans[tr].q
+//@ def hasT(l *LALR1, q int, x int) = exists y int :: 0 <= y && y < len(l.trans) && l.trans[y].q == q && int(l.trans[y].sym_or_rule) == x
+//@ def inRes(l *LALR1, res []Relation, tr int, q int, x int) = exists m int :: 0 <= m && m < len(res) && res[m].x == tr &&
+//@     0 <= res[m].y && res[m].y < len(l.trans) && l.trans[res[m].y].q == q && int(l.trans[res[m].y].sym_or_rule) == x
+//@ def lhsID(l *LALR1, ri int) = int(l.G.ProductoinRules[ri].LeftPart.ID)
+
 //@ func (*LALR1).CaclIncludeRelation
 //@ props C03 C02
 //@ results res
+//@ ensures [C03,C02] forall ri, d, q int :: incCand(lalr, tr, ri, d, q) && hasT(lalr, q, lhsID(lalr, ri)) ==> inRes(lalr, res, tr, q, lhsID(lalr, ri))
+//@ loop 0: invariant forall ri, d, q int :: ri < idx0 && incCand(lalr, tr, ri, d, q) && hasT(lalr, q, lhsID(lalr, ri)) ==> inRes(lalr, res, tr, q, lhsID(lalr, ri))
+//@ loop 1: invariant forall ri, d, q int :: ri < idx0 && incCand(lalr, tr, ri, d, q) && hasT(lalr, q, lhsID(lalr, ri)) ==> inRes(lalr, res, tr, q, lhsID(lalr, ri))
+//@ loop 1: invariant forall d, q int :: d < idx1 && incCand(lalr, tr, idx0, d, q) && hasT(lalr, q, lhsID(lalr, idx0)) ==> inRes(lalr, res, tr, q, lhsID(lalr, idx0))
+//@ loop 2: invariant forall ri, d, q int :: ri < idx0 && incCand(lalr, tr, ri, d, q) && hasT(lalr, q, lhsID(lalr, ri)) ==> inRes(lalr, res, tr, q, lhsID(lalr, ri))
+//@ loop 2: invariant forall d, q int :: d < idx1 && incCand(lalr, tr, idx0, d, q) && hasT(lalr, q, lhsID(lalr, idx0)) ==> inRes(lalr, res, tr, q, lhsID(lalr, idx0))
+//@ loop 2: invariant forall q int :: q < idx2 && incCand(lalr, tr, idx0, idx1, q) && hasT(lalr, q, lhsID(lalr, idx0)) ==> inRes(lalr, res, tr, q, lhsID(lalr, idx0))
 //@ requires wfTrans(lalr) && lalr.G.LR0 != nil && 0 <= tr && tr < len(lalr.trans) && lalr.trans[tr].sym_or_rule&CheckMask == 0
 //@ requires forall i, k int :: 0 <= i && i < len(lalr.G.ProductoinRules) && 0 <= k && k < len(lalr.G.ProductoinRules[i].RighPart) ==> lalr.G.ProductoinRules[i].RighPart[k].ID < 4294967296
 //@ requires forall i int :: 0 <= i && i < len(lalr.G.ProductoinRules) ==> lalr.G.ProductoinRules[i].LeftPart.ID < 4294967296
